@@ -292,6 +292,30 @@ func c16(r *eng.Run) {
 	r.Add("evaluations", int(evals))
 	r.Set("e2_ownership_texts", int(evals))
 	r.Set("destination_menu", len(dstMenu()))
+	// the hard-number pool (digit runs of every length 1..40, every conversion path) and the hard
+	// strings, bare and inside containers: failing paths must leave the input alone too
+	{
+		var pool []string
+		for _, x := range hardNumbers() {
+			pool = append(pool, x, "["+x+",1]", `{"a":`+x+`}`)
+		}
+		for _, x := range hardStrings() {
+			pool = append(pool, x, "["+x+"]")
+		}
+		for _, t := range pool {
+			w := eng.Exact([]byte(t))
+			wc := eng.Exact([]byte(t))
+			eng.Beat(w)
+			apiRuns++
+			if pan := guard(func() { apiSweep(wc) }); pan != "" {
+				r.Violation(eng.Replay{Engine: "api", Entry: "all exported functions (input immutability)", Sig: "panic/hard-pool/" + shortSig(w), InputB64: w, Expected: "returns normally", Got: "panic: " + pan})
+				continue
+			}
+			if !bytes.Equal(wc, w) {
+				r.Violation(eng.Replay{Engine: "api", Entry: "all exported functions (input immutability)", Sig: "input-modified/hard-pool/" + shortSig(w), InputB64: w, Expected: fmt.Sprintf("%q", w), Got: fmt.Sprintf("%q", wc)})
+			}
+		}
+	}
 	r.Set("api_immutability_nodes", apiRuns)
 	r.Set("rule", e1Rule+" C16: on every string node the append law result == destination ++ result-with-empty-destination is checked for ReadStringBytes, UnescapeStringContent and StdLibCompatibleStringBytes over a destination menu (nil, empty with cap 0/1/64, full, 1..8 bytes spare filled with 0xAA, long prefix), scratch independence of ReadString/DecodeString over {nil, empty, dirty, dirty large}; every exported function runs on every node of a generic exploration with the input compared before/after; after each call the input and the buffers are overwritten with 0xFF and previously returned strings/trees compared with frozen deep copies (also after the reader is reused).")
 	r.Sample(map[string]interface{}{"kind": "string-node x destination", "input": `"a` + "\\" + `n`, "destination": "xy with 3 spare bytes of 0xAA"})
